@@ -85,6 +85,18 @@ def gen_case(rng, malformed=None):
                           n_tries=rng.choice([None, None, 0, 1, 2, 3]),
                           use_count=rng.choice([None, True, False, False]),
                           form="two" if (len(amap) == 1 and rng.random() < 0.3) else "one"))
+    if nbin > 1 and rng.random() < 0.15:          # two paths with equal content
+        binaries[1] = list(binaries[0])
+    for ci in range(1, len(calls)):               # a file rebuilt between two calls on the same controller
+        if rng.random() < 0.3:
+            earlier = sorted({b for k in calls[:ci] for b, _ in k["map"]} & {b for b, _ in calls[ci]["map"]}) \
+                or [b for b, _ in calls[ci]["map"]]
+            if earlier:
+                b = rng.choice(earlier)
+                new = gen_binary(rng, buffer)
+                if rng.random() < 0.5:            # same size, other content
+                    new = [(v + 1 + rng.randrange(255)) % 256 for v in binaries[b]]
+                calls[ci]["rewrite"] = [[b, new]]
     kind = "valid"
     if malformed:
         kind = malformed
@@ -189,6 +201,46 @@ def gen_exhaustive():
     return out
 
 
+def files_at(c):
+    """Contents of every file (by path index) at the time of each call: a call may carry
+    "rewrite": [[path index, [bytes]], ...], files rewritten (rebuilt) just before it."""
+    cur, out = [list(b) for b in c["binaries"]], []
+    for k in c["calls"]:
+        for b, data in k.get("rewrite") or []:
+            cur[b] = list(data)
+        out.append([list(b) for b in cur])
+    return out
+
+
+def versions(c):
+    """The model knows file CONTENTS, not paths: every version of every file gets its own index.
+    -> (all versions, per call {path index: version index})"""
+    allv = [list(b) for b in c["binaries"]]
+    cur, maps = {i: i for i in range(len(allv))}, []
+    for k in c["calls"]:
+        for b, data in k.get("rewrite") or []:
+            allv.append(list(data))
+            cur[b] = len(allv) - 1
+        maps.append(dict(cur))
+    return allv, maps
+
+
+def rewrite_history():
+    """Two loads on one controller naming the same path, the file rebuilt (other size and content) in between;
+    and a second path whose content equals the first one's."""
+    chips = [[0, 0, [list(IDLE) for _ in range(18)]], [1, 0, [list(IDLE) for _ in range(18)]]]
+    b0 = [i % 256 for i in range(32)]
+    return dict(machine=dict(buffer=16, base=0x60240000, vcpu=0xe5007000, chips=chips, sched=[]),
+                binaries=[b0, list(b0)],
+                calls=[dict(fn="load", map=[[0, [[0, 0, [1]]]]], app_id=30, wait=None, n_tries=None,
+                            use_count=None, form="one"),
+                       dict(fn="load", map=[[0, [[1, 0, [2]]]], [1, [[1, 0, [3]]]]], app_id=31, wait=None, n_tries=None,
+                            use_count=False, form="one", rewrite=[[0, [(5 * i + 1) % 256 for i in range(20)]]]),
+                       dict(fn="load", map=[[0, [[0, 0, [4]]]]], app_id=32, wait=True, n_tries=None,
+                            use_count=None, form="two", rewrite=[[0, [(7 * i + 3) % 256 for i in range(20)]]])],
+                kind="valid")
+
+
 # ------------------------------------------------------------------ canonical form of a trace
 SV_VCPU_BASE_ADDR = 0xf5007f00 + 0xcc
 
@@ -247,7 +299,8 @@ class Lits(object):
 
     def __init__(self, c, tag):
         self.c, self.tag = c, tag
-        self.bins = [bytes(bytearray(b)) for b in c["binaries"]]
+        self.allv, self.vmaps = versions(c)
+        self.bins = [bytes(bytearray(b)) for b in self.allv]
 
     def data(self, d):
         if len(d) >= 6:
@@ -300,12 +353,12 @@ class Lits(object):
                 "Definition impl%s : list impl_call := %s.\n"
                 "Definition calls%s : list call := %s.\n"
                 "Eval vm_compute in (observe (run_calls bins%s ctrl_init m%s calls%s) impl%s, validate m%s impl%s).\n"
-                % (t, vlist(zl(b) for b in c["binaries"]), t, t, t, self.machine(c["machine"]), t, impl,
-                   t, vlist(coq_call(k) for k in c["calls"]), t, t, t, t, t, t))
+                % (t, vlist(zl(b) for b in self.allv), t, t, t, self.machine(c["machine"]), t, impl,
+                   t, vlist(coq_call(k, vm) for k, vm in zip(c["calls"], self.vmaps)), t, t, t, t, t, t))
 
 
-def coq_call(k):
-    amap = vlist("(%s, %s)" % (zlit(b), vlist("((%s, %s), %s)" % (zlit(x), zlit(y), zl(sorted(ps)))
+def coq_call(k, vmap):
+    amap = vlist("(%s, %s)" % (zlit(vmap[b]), vlist("((%s, %s), %s)" % (zlit(x), zlit(y), zl(sorted(ps)))
                                                 for x, y, ps in ts)) for b, ts in k["map"])
     if k["fn"] == "fill":
         wait = "true" if k["wait"] is None else lib.vbool(k["wait"])       # flood_fill_aplx: wait=True
@@ -340,8 +393,10 @@ def eval_histories(chk, items, shard):
     return vals
 
 
-def model_map(u):
-    return [[b, [[x, y, sorted(ps)] for x, y, ps in ts]] for b, ts in u]
+def model_map(u, vmap):
+    """The model's unloaded map, its version indices translated back to path indices."""
+    back = {v: b for b, v in vmap.items()}
+    return [[back.get(b, -1), [[x, y, sorted(ps)] for x, y, ps in ts]] for b, ts in u]
 
 
 # ------------------------------------------------------------------ independent oracle
@@ -354,8 +409,9 @@ def defaults(k):
             True if k["use_count"] is None else k["use_count"])
 
 
-def in_domain(c, k):
-    """The guards under which the property speaks about this call."""
+def in_domain(c, k, bins=None):
+    """The guards under which the property speaks about this call (bins: the files at the time of the call)."""
+    bins = c["binaries"] if bins is None else bins
     m = c["machine"]
     chips = {(x, y) for x, y, _ in m["chips"]}
     if m["buffer"] % 4 or not 4 <= m["buffer"] <= 1024 or not 0 <= k["app_id"] <= 255:
@@ -364,7 +420,7 @@ def in_domain(c, k):
         return False
     seen = set()
     for b, ts in k["map"]:
-        data = c["binaries"][b]
+        data = bins[b]
         if len(data) % 4 or (len(data) + m["buffer"] - 1) // m["buffer"] > 255:
             return False
         for x, y, ps in ts:
@@ -463,7 +519,8 @@ def oracle(c, ci, k, pre, o):
     found = []
     if res[0] == "hang":
         return [("load-does-not-terminate", "no result within the time limit")]
-    if not in_domain(c, k):
+    bins = files_at(c)[ci]                    # the files as they are when this call is made
+    if not in_domain(c, k, bins):
         return []
     if res[0] == "other":
         return [("unexpected-exception", "raised %s, which is not SpiNNakerLoadingError" % res[1])]
@@ -487,10 +544,10 @@ def oracle(c, ci, k, pre, o):
             continue
         if bs:
             b = bs.pop()
-            why = fill_wellformed(f, c["binaries"][b], m["buffer"], m["base"])
+            why = fill_wellformed(f, bins[b], m["buffer"], m["base"])
         else:
             # a fill that selects no core (an entry without cores): any binary of the map may be meant
-            whys = [fill_wellformed(f, c["binaries"][b2], m["buffer"], m["base"]) for b2, _ in k["map"]]
+            whys = [fill_wellformed(f, bins[b2], m["buffer"], m["base"]) for b2, _ in k["map"]]
             why = None if (None in whys or not whys) else whys[0]
             b = None
         if why:
@@ -501,7 +558,7 @@ def oracle(c, ci, k, pre, o):
         per_binary[b] = nth + 1
         if k["fn"] == "load" and nth > 0:
             before = {(x, y, p): core for x, y, cs in truth["before"] for p, core in enumerate(cs)}
-            want = [WAIT, app, crc(c["binaries"][b]), len(c["binaries"][b])]
+            want = [WAIT, app, crc(bins[b]), len(bins[b])]
             resent = sorted(core for core in sel if before[core] == want)
             if resent:
                 found.append(("retry-resends-loaded-core", "attempt %d for binary %d re-sends to %r, already loaded"
@@ -517,7 +574,7 @@ def oracle(c, ci, k, pre, o):
     before = {(x, y, p): core for x, y, cs in pre for p, core in enumerate(cs)}
     ok = res[0] == "ok"
     final = RUN if (ok and not wait) else WAIT
-    loaded = {core: post[core] == [final, app, c["binaries"][b]] for core, b in named.items()}
+    loaded = {core: post[core] == [final, app, bins[b]] for core, b in named.items()}
     stale_other = any(core not in named and s[0] == WAIT and s[1] == app for core, s in before.items())
     # how the call decided that everything was loaded: by the count diagnostic (its last verification is a
     # count whose reply -- the simulator's ground truth -- equals the number of requested cores) or by reading
@@ -544,7 +601,7 @@ def oracle(c, ci, k, pre, o):
                 seen.add(key)
                 found.append((key, "load_application returned normally but core %r holds state %d, app id %d, %s image"
                               % (core, post[core][0], post[core][1],
-                                 "the right" if post[core][2] == c["binaries"][named[core]] else "not the named")))
+                                 "the right" if post[core][2] == bins[named[core]] else "not the named")))
     else:
         told = {(x, y, p) for b, ts in res[1] for x, y, ps in ts for p in ps}
         told_b = {(x, y, p): b for b, ts in res[1] for x, y, ps in ts for p in ps}
@@ -558,7 +615,7 @@ def oracle(c, ci, k, pre, o):
         # a core this very call has loaded (it now holds its binary under the app id, started or waiting, and
         # did not before) must not be named
         wrongly = sorted(core for core in told & set(named)
-                         if post[core][1:] == [app, c["binaries"][named[core]]] and post[core][0] in (WAIT, RUN)
+                         if post[core][1:] == [app, bins[named[core]]] and post[core][0] in (WAIT, RUN)
                          and before[core] != post[core])
         if wrongly and not any(key == "error-names-wrong-cores" for key, _ in found):
             found.append(("error-names-wrong-cores", "SpiNNakerLoadingError names %r, which this call has loaded"
@@ -579,7 +636,7 @@ def oracle(c, ci, k, pre, o):
 
 # ------------------------------------------------------------------ the check
 def nontrivial(c, outs):
-    ok_calls = [k for k in c["calls"] if k["fn"] == "load" and in_domain(c, k)]
+    ok_calls = [k for k, b in zip(c["calls"], files_at(c)) if k["fn"] == "load" and in_domain(c, k, b)]
     missed = any(f["missed"] for o in outs for f in o["fills"])
     stale = any(core[0] == WAIT for _, _, cs in c["machine"]["chips"] for core in cs) or len(c["calls"]) > 1
     return bool(ok_calls) and (missed or stale)
@@ -612,7 +669,7 @@ def run(chk, args):
         for i in range(n):
             mal = MALFORMED[(i // 8) % len(MALFORMED)] if i % 8 == 7 else None
             cases.append(gen_case(chk.rng, mal))
-        fixed = [k3_history(), stale_requested_history()]
+        fixed = [k3_history(), stale_requested_history(), rewrite_history()]
         if chk.tier != "quick":
             fixed += gen_exhaustive()
         if os.path.exists(corpus_path):
@@ -636,6 +693,8 @@ def run(chk, args):
         pre = c["machine"]["chips"]
         for ci, (k, oc) in enumerate(zip(c["calls"], o)):
             chk.count("call:%s" % k["fn"])
+            if k.get("rewrite"):
+                chk.count("calls-after-a-file-was-rewritten")
             if k["fn"] == "load":
                 chk.count("outcome:" + oc["result"][0])
                 chk.count("mode:" + ("count" if defaults(k)[2] else "state"))
@@ -663,6 +722,7 @@ def run(chk, args):
             bad = 0
             for i, v in zip(idx, vals):
                 c, o = cases[i], outs[i]
+                vmaps = versions(c)[1]
                 obs, val = v
                 for ci, (dr, ok_state) in enumerate(val):
                     chk.traces_validated += 1
@@ -687,8 +747,8 @@ def run(chk, args):
                     why = None
                     if tag != want:
                         why = "outcome: model %s, implementation %r" % (tag, res)
-                    elif res[0] == "loaderr" and model_map(mo[1]) != res[1]:
-                        why = "unloaded map: model %r, implementation %r" % (model_map(mo[1]), res[1])
+                    elif res[0] == "loaderr" and model_map(mo[1], vmaps[ci]) != res[1]:
+                        why = "unloaded map: model %r, implementation %r" % (model_map(mo[1], vmaps[ci]), res[1])
                     elif res[0] != "other" and (td != -1 or not st_ok or nn != oc["nn_id"]):
                         why = ("packet trace differs at index %d" % td if td != -1 else
                                "final core states differ" if not st_ok else
@@ -710,7 +770,9 @@ def run(chk, args):
                             "waiting/running by earlier sessions (45%%), per-fill miss sets with rate in {0,.15,.3,.5,.8,1}, "
                             "1-3 calls on one controller (93%% load_application, both modes, wait, n_tries 0-3, one- and "
                             "two-argument forms); every 8th history malformed (%s); preceded by the K3 and the "
-                            "stale-requested-core witnesses and corpus/C09.json; thorough adds the exhaustive enumeration of 3072 "
+                            "stale-requested-core witnesses, a history that rebuilds a file between two loads naming the same path, "
+                            "and corpus/C09.json; 15%% of the histories have two paths with equal content, 30%% of the later calls "
+                            "are preceded by a rewrite of a file used before (ground truth = the file at the time of the call); thorough adds the exhaustive enumeration of 3072 "
                             "histories (2 chips x 3 attempts: every miss pattern x both modes x wait x n_tries 0..2 x 4 "
                             "earlier states) and 8000 random histories; non-trivial = an in-domain "
                             "load_application call and (a missed fill or a core already waiting or an earlier call); "
